@@ -65,7 +65,7 @@ T_Flush   == Is("Flush")   /\ IF Ev.res = "ok" /\ vopen THEN Flush /\ Keep ELSE 
 T_Compact == Is("Compact") /\ IF Ev.res = "ok" /\ vopen
                               THEN Compact(Ev.hsize, Ev.nspecial) /\ vhaslf' = TRUE /\ UNCHANGED <<vreset, voptok, vskip>>
                               \* a refusal is legitimate only where the names are not all known
-                              ELSE IF Refusal(Ev.res) /\ vopen /\ ~vhaslf THEN CompactFail /\ Keep
+                              ELSE IF Ev.res \notin {"ok", "hang", "panic"} /\ vopen /\ ~vhaslf THEN CompactFail /\ Keep
                               ELSE Reject("compact")
 T_Close   == Is("Close")   /\ IF Ev.res = "ok" /\ vopen THEN Close /\ Keep ELSE Reject("close")
 \* a fresh Archive::open of the file after the session was closed must succeed
